@@ -2,7 +2,7 @@
    Proofs*.v; the driver pins the statements with [Check] and prints the
    assumptions on every run.  [Example]s show that the hypotheses of the
    implication-shaped theorems are satisfiable by non-trivial data. *)
-From Yv Require Import Common.Base C02.Model C02.Spec C02.ProofsMono C02.ProofsSim C02.Proofs.
+From Yv Require Import Common.Base C02.Model C02.Spec C02.ProofsMono C02.ProofsSim C02.ProofsRev C02.Proofs.
 
 (* Every terminating run of the model (runtime context stack, divert values,
    the loop's status register, the case flags, the flat and-or loop) is a run
@@ -11,6 +11,15 @@ From Yv Require Import Common.Base C02.Model C02.Spec C02.ProofsMono C02.ProofsS
    without any bound on the size of the script or the length of the run. *)
 Theorem exec_sound : forall p o, wf_prog p = true -> model_result p o -> spec_result p o.
 Proof. exact exec_sound_lemma. Qed.
+
+(* Conversely, every terminating run of the specification is matched by a
+   terminating run of the model with the same observation: on well-formed
+   scripts, model and specification are the same partial function. *)
+Theorem exec_complete : forall p o, wf_prog p = true -> spec_result p o -> model_result p o.
+Proof. exact exec_complete_lemma. Qed.
+
+Theorem model_eq_spec : forall p o, wf_prog p = true -> (model_result p o <-> spec_result p o).
+Proof. exact model_eq_spec_lemma. Qed.
 
 (* The specification is a function: a script has at most one behaviour. *)
 Theorem spec_deterministic : forall p o1 o2, spec_result p o1 -> spec_result p o2 -> o1 = o2.
@@ -28,9 +37,9 @@ Proof. exact oracle_sound_lemma. Qed.
    Condition frame computes the evaluation of the left-nested tree
    ((p1 op p2) op p3) ... in which both operators have the same precedence and
    the right operand runs iff the left one succeeded (&&) / failed (||). *)
-Theorem andor_short_circuit_left_assoc : forall strict n stk a s r s' d infun ex,
+Theorem andor_short_circuit_left_assoc : forall n stk a s r s' d infun ex,
   exec_andor n stk a s = Some (r, s') -> ctx_ok stk d infun ex ->
-  wf_andor strict d infun a = true -> state_ok strict s ->
+  wf_andor d infun a = true -> state_ok s ->
   forall sv, exists m,
     sem_tree (fun ex' p s0 => sem_pipeline m d ex' sv p s0) ex (andor_tree a) true s
     = Some (abs sv r s').
@@ -61,16 +70,16 @@ Proof. exact loop_count_lemma. Qed.
 
 (* Loops honour the levels: a command at lexical loop depth [d] never
    completes by breaking / continuing more than [d] loops ... *)
-Theorem loop_break_continue_levels : forall strict n stk c s r s' d infun ex,
+Theorem loop_break_continue_levels : forall n stk c s r s' d infun ex,
   exec_cmd n stk c s = Some (r, s') -> ctx_ok stk d infun ex ->
-  wf_cmd strict d infun c = true -> state_ok strict s ->
+  wf_cmd d infun c = true -> state_ok s ->
   (forall k, r = Brk (DBreak k) -> k < d) /\ (forall k, r = Brk (DContinue k) -> k < d).
 Proof. exact levels_lemma. Qed.
 
 (* ... in particular none escapes a function body. *)
-Theorem function_body_consumes_break_continue : forall strict n stk body s r s' ex,
+Theorem function_body_consumes_break_continue : forall n stk body s r s' ex,
   exec_cmd n stk body s = Some (r, s') -> ex = has_cond stk ->
-  wf_cmd strict 0 true body = true -> state_ok strict s ->
+  wf_cmd 0 true body = true -> state_ok s ->
   forall k, r <> Brk (DBreak k) /\ r <> Brk (DContinue k).
 Proof. exact function_body_consumes_loops. Qed.
 
@@ -159,7 +168,7 @@ Example ctx_ok_not_vacuous :
 Proof. split; [split; cbn; auto | reflexivity]. Qed.
 
 Example state_ok_not_vacuous :
-  state_ok false
+  state_ok
     (define_fun (NUser 0) (CBrace (LCons (AndOr (Pipe false (CCons (CCall plain NReturn []) CNil)) RNil) LNil))
        (add_ronly 1 init_state)).
 Proof.
@@ -168,6 +177,8 @@ Proof.
 Qed.
 
 Print Assumptions exec_sound.
+Print Assumptions exec_complete.
+Print Assumptions model_eq_spec.
 Print Assumptions spec_deterministic.
 Print Assumptions oracle_sound.
 Print Assumptions andor_short_circuit_left_assoc.
